@@ -430,6 +430,61 @@ def oracle(ctx: Ctx, deep: bool = False):
                             yield Violation(f"shift-inverse-{tag}", f"{nm} != x",
                                             {"op": "shift-inverse", "which": nm, "shape": shape, "dims": list(dims),
                                              "expected": x.tolist(), "observed": obs})
+    # argument forms the correspondence also generates: negative axes, shuffled axis order, roll with arbitrary shifts
+    for _ in range(ctx.budget(60, 600) * (2 if deep else 1)):
+        rank = rng.randint(1, 5)
+        shape = _shape(rng, rank, 300, need_odd_even=False)
+        x = _arange(shape)
+        dims = rng.sample(range(rank), rng.randint(1, rank))
+        dpass = [d - rank if rng.random() < 0.5 else d for d in dims]
+        odd = any(shape[a] % 2 == 1 and shape[a] >= 3 for a in dims)
+        tag = ("odd" if odd else "even") + ("/negative-axis" if any(d < 0 for d in dpass) else "/shuffled")
+        ctx.count(("shift-forms", tuple(shape), tuple(dpass)), any(shape[a] >= 2 for a in dims), bucket="oracle/shift-forms-" + tag)
+        for nm, fn, ref in (("fftshift", T.fftshift, np.fft.fftshift), ("ifftshift", T.ifftshift, np.fft.ifftshift)):
+            exp = ref(x.numpy(), axes=tuple(dims))
+            try:
+                got = fn(x, dim=list(dpass)).numpy()
+                ok, obs = got.shape == exp.shape and np.array_equal(got, exp), got.tolist()
+            except Exception as e:  # noqa: BLE001
+                ok, obs = False, f"raises {err_name(e)}"
+            if not ok:
+                yield Violation(f"shift-numpy/{nm}-{tag}", f"{nm}(dim={dpass}) differs from numpy.fft.{nm}",
+                                {"op": nm, "shape": shape, "dims": list(dpass), "expected": exp.tolist(), "observed": obs})
+        if rng.random() < 0.3:
+            dims = dims + [rng.choice(dims)]
+        shifts = [rng.choice([0, 1, -1, shape[a], -shape[a] - 1, rng.randint(-15, 15)]) for a in dims]
+        ctx.count(("roll", tuple(shape), tuple(dims), tuple(shifts)), True, bucket="oracle/roll-vs-numpy")
+        exp = np.roll(x.numpy(), shifts, axis=tuple(dims))
+        try:
+            got = T.roll(x, list(shifts), list(dims)).numpy()
+            ok, obs = np.array_equal(got, exp), got.tolist()
+        except Exception as e:  # noqa: BLE001
+            ok, obs = False, f"raises {err_name(e)}"
+        if not ok:
+            yield Violation("roll-numpy", f"roll(shift={shifts}, dim={dims}) differs from numpy.roll",
+                            {"op": "roll", "shape": shape, "dims": list(dims), "shifts": list(shifts), "expected": exp.tolist(),
+                             "observed": obs})
+    # real float32 input (complex_input=False) with power-of-two lengths against numpy
+    for _ in range(ctx.budget(10, 100)):
+        rank = rng.randint(2, 4)
+        shape = [rng.choice([1, 2, 4, 8]) for _ in range(rank)]
+        d = rng.sample(range(rank), 2)
+        c, n = rng.randint(0, 1), rng.randint(0, 1)
+        g = torch.Generator().manual_seed(rng.randrange(2 ** 31))
+        x = torch.randint(-8, 9, tuple(shape), generator=g).float()
+        ctx.count(("fft-real", tuple(shape), tuple(d), c, n), True, bucket="oracle/fft-real-float32-pow2")
+        for nm, inv in (("fft2", False), ("ifft2", True)):
+            ref = _np_ref(x.numpy().astype(np.complex128), tuple(d), c, n, inv)
+            try:
+                got = getattr(T, nm)(x, dim=tuple(d), centered=bool(c), normalized=bool(n), complex_input=False).numpy()
+                ok = got.shape == ref.shape and np.allclose(got, ref, atol=1e-4 * max(1.0, float(np.max(np.abs(ref)))))
+                obs = float(np.max(np.abs(got - ref))) if got.shape == ref.shape else "shape"
+            except Exception as e:  # noqa: BLE001
+                ok, obs = False, f"raises {err_name(e)}"
+            if not ok:
+                yield Violation(f"reference/{nm}/real-input", f"{nm} on real float32 input differs from the numpy reference",
+                                {"op": "fft-real", "fn": nm, "shape": shape, "dims": d, "centered": c, "normalized": n,
+                                 "data": x.tolist(), "observed": obs})
     # 1-D exhaustive: lengths 1..16 (1..40 deep)
     for n in range(1, 41 if big else 17):
         x = _arange([n])
@@ -520,6 +575,15 @@ def replay(rep: dict) -> bool:
         if op in ("fftshift", "ifftshift"):
             x = _arange(rep["shape"])
             return getattr(T, op)(x, dim=list(rep["dims"])).numpy().tolist() != rep["expected"]
+        if op == "roll":
+            x = _arange(rep["shape"])
+            return T.roll(x, list(rep["shifts"]), list(rep["dims"])).numpy().tolist() != rep["expected"]
+        if op == "fft-real":
+            x = torch.tensor(rep["data"], dtype=torch.float32)
+            ref = _np_ref(x.numpy().astype(np.complex128), tuple(rep["dims"]), rep["centered"], rep["normalized"], rep["fn"] == "ifft2")
+            got = getattr(T, rep["fn"])(x, dim=tuple(rep["dims"]), centered=bool(rep["centered"]), normalized=bool(rep["normalized"]),
+                                       complex_input=False).numpy()
+            return not np.allclose(got, ref, atol=1e-4 * max(1.0, float(np.max(np.abs(ref)))))
         if op == "shift-inverse":
             x = _arange(rep["shape"])
             a, b = (T.ifftshift, T.fftshift) if rep["which"].startswith("fftshift") else (T.fftshift, T.ifftshift)
